@@ -94,6 +94,7 @@ def sheet(draw, knobs=None, max_rules=7):
     counter = [0]
     var_defs = []   # (name, value)
     used_vars = set()
+    colour_vars = []  # custom properties holding a colour that some rule's color declaration references directly
     var_counter = [0]
 
     def new_var(value, scope_hint=None):
@@ -122,8 +123,14 @@ def sheet(draw, knobs=None, max_rules=7):
             # through a custom property (optionally a chain)
             if kb["shared_vars"] and var_defs and draw(st.booleans()):
                 name = draw(st.sampled_from([n for n, _ in var_defs]))
+            elif kb["shared_vars"] and colour_vars and draw(st.integers(0, 2)) == 0:
+                # an ALIAS of a custom property that another rule already uses directly (--link: var(--base)). Only in the
+                # shared-property campaign: the tool rewrites the base in place for the other rule and reads the alias
+                # through it afterwards (known finding F6), so the main campaign keeps clear of it
+                name = new_var(f"var({draw(st.sampled_from(colour_vars))})")
             else:
                 name = new_var(draw(colour_value(rgb)))
+                colour_vars.append(name)
                 if draw(st.integers(0, 4)) == 0:
                     name = new_var(f"var({name})")
             used_vars.add(name)
